@@ -109,6 +109,39 @@ pub fn run() -> i32 {
         det.step(5);
         check(det.step(5) == Some(1), "cycle detector: immediate fixed point", &mut f);
     }
+    // 6. seam S1b: the fault plan for seeded generators
+    {
+        use rand::rngs::StdRng;
+        use rand::{RngCore, SeedableRng};
+        use rand::sim::{set_std_fault_plan, take_std_faults_fired, StdFaultPlan};
+        // upstream's own value-stability vector: without a plan StdRng is upstream's, word for word
+        #[rustfmt::skip]
+        let seed = [1,0,0,0, 23,0,0,0, 200,1,0,0, 210,30,0,0, 0,0,0,0, 0,0,0,0, 0,0,0,0, 0,0,0,0];
+        set_std_fault_plan(None);
+        check(StdRng::from_seed(seed).next_u64() == 10719222850664546238, "S1b: StdRng without a plan is upstream's", &mut f);
+        let plain: Vec<u64> = { let mut g = StdRng::seed_from_u64(42); (0..2000).map(|_| g.next_u64()).collect() };
+        take_std_faults_fired();
+        set_std_fault_plan(Some(StdFaultPlan { salt: 7, per_million: 100_000 }));
+        let a: Vec<u64> = { let mut g = StdRng::seed_from_u64(42); (0..2000).map(|_| g.next_u64()).collect() };
+        let fired = take_std_faults_fired();
+        let b: Vec<u64> = { let mut g = StdRng::seed_from_u64(42); (0..2000).map(|_| g.next_u64()).collect() };
+        check(a == b, "S1b: same seed + same plan = same stream", &mut f);
+        check(fired > 100 && fired < 400, &format!("S1b: about 10% of 2000 draws replaced ({} fired)", fired), &mut f);
+        let differing = a.iter().zip(&plain).filter(|(x, y)| x != y).count() as u64;
+        check(differing <= fired && differing > 0, "S1b: every other word is the generator's own", &mut f);
+        check(a.iter().any(|w| *w == 0) && a.iter().any(|w| *w == u64::MAX), "S1b: boundary words 0 and MAX are served", &mut f);
+        set_std_fault_plan(Some(StdFaultPlan { salt: 8, per_million: 100_000 }));
+        let c: Vec<u64> = { let mut g = StdRng::seed_from_u64(42); (0..2000).map(|_| g.next_u64()).collect() };
+        check(c != a, "S1b: another salt hits other draws", &mut f);
+        // the plan is captured at construction: a generator built under a plan keeps it, one built after clearing does not
+        let mut kept = StdRng::seed_from_u64(42);
+        set_std_fault_plan(None);
+        let k: Vec<u64> = (0..2000).map(|_| kept.next_u64()).collect();
+        check(k == c, "S1b: plan captured at construction", &mut f);
+        let again: Vec<u64> = { let mut g = StdRng::seed_from_u64(42); (0..2000).map(|_| g.next_u64()).collect() };
+        check(again == plain, "S1b: cleared plan restores upstream behaviour", &mut f);
+        take_std_faults_fired();
+    }
     if f.is_empty() {
         println!("selftest ok");
         0
